@@ -183,7 +183,19 @@ def _run_case(case, r):
         gi = np.asarray(cop.generator(np.asarray([x for x in g if 0 <= x <= 1])), float)     # generator(0) = +inf included
         lhs = np.asarray(cop.generator(alone[interior]), float)
         rhs = np.asarray(cop.generator(Pi[:, 0]), float) + np.asarray(cop.generator(Pi[:, 1]), float)
-    r.tr(5)
+        g_alone = np.array([float(np.asarray(cop.generator(np.array([x_])))[0]) for x_ in g if 0 <= x_ <= 1])
+    r.tr(5 + len(g_alone))
+    if not np.array_equal(gi, g_alone, equal_nan=True):
+        j = int(np.nonzero(~((gi == g_alone) | (np.isnan(gi) & np.isnan(g_alone))))[0][0])
+        r.violation(f'{sig}:generator-batch-dependence', f'{fam} theta={th}: generator of a grid containing 0 gives {gi[j]!r} at '
+                    f't={[x_ for x_ in g if 0 <= x_ <= 1][j]!r}, {g_alone[j]!r} when that point is evaluated alone', case=case)
+    try:
+        e_ = np.asarray(cop.cumulative_distribution(np.empty((0, 2))), float)
+        if e_.shape != (0,):
+            r.violation(f'{sig}:empty-batch', f'{fam} theta={th}: cumulative_distribution of zero rows has shape {e_.shape}', case=case)
+    except Exception as e:
+        r.violation(f'{sig}:empty-batch:raises', f'{fam} theta={th}: cumulative_distribution of zero rows raised '
+                    f'{type(e).__name__}: {e}', case=case)
     if not abs(g1) <= 1e-12:
         r.violation(f'{sig}:generator-at-1', f'{fam} theta={th}: generator(1)={g1!r}', case=case)
     with np.errstate(all='ignore'):
